@@ -220,7 +220,7 @@ func genSync(r *rand.Rand, emit func(core.Case), n int, tier string) {
 		}
 		// provider
 		for h := uint64(1); h <= 5; h++ {
-			ah, st, cm := pick(r, []string{"a1", "a2", "-"}), fmt.Sprintf("%d/%d", 10+h, 1+r.Intn(2)), fmt.Sprintf("%d", 20+h)
+			ah, st, cm := pick(r, []string{"a1", "a2", "-"}), fmt.Sprintf("%d/%s", 10+h, pick(r, []string{"1", "2", "1", "2", "0", "18446744073709551615"})), fmt.Sprintf("%d", 20+h)
 			if scen == "provider" || r.Intn(15) == 0 {
 				switch r.Intn(8) {
 				case 0:
@@ -328,7 +328,7 @@ func genSync(r *rand.Rand, emit func(core.Case), n int, tier string) {
 				case 4:
 					infos = append(infos, fmt.Sprintf("%d:%s:%d", 1+r.Intn(2), pick(r, []string{"a1", "a2"}), -int64(r.Intn(3))))
 				default:
-					infos = append(infos, fmt.Sprintf("%d:%s:%d", 1+r.Intn(3), pick(r, []string{"a1", "a2", "a3"}), 1+r.Intn(5)))
+					infos = append(infos, fmt.Sprintf("%s:%s:%d", pick(r, []string{"0", "1", "2", "3", "18446744073709551615"}), pick(r, []string{"a1", "a2", "a3"}), 1+r.Intn(5)))
 				}
 			}
 		}
@@ -354,6 +354,49 @@ func genSync(r *rand.Rand, emit func(core.Case), n int, tier string) {
 	}
 }
 
+// genVerify: the last step of a restore. One snapshot whose chunks all arrive, provider answers at
+// boundary values (app version 0 / 1 / max uint64, empty app hash, heights around the int64/uint64
+// casts), and an application whose Info matches exactly or differs in exactly one of version,
+// hash, height.
+func genVerify(r *rand.Rand, emit func(core.Case), n int) {
+	heights := []uint64{1, 5, 1<<63 - 1, 1 << 63, 1<<64 - 1}
+	versions := []uint64{0, 0, 1, 7, 1<<64 - 1}
+	hashes := []string{"-", "a1", "a2", "a1a1"}
+	for c := 0; c < n; c++ {
+		h := heights[r.Intn(len(heights))]
+		v := versions[r.Intn(len(versions))]
+		ah := hashes[r.Intn(len(hashes))]
+		chunks := 1 + r.Intn(2)
+		sn := snapT{h, 1, uint32(chunks), unhx("aa"), nil}
+		var ms []string
+		for i := 0; i < chunks; i++ {
+			ms = append(ms, chunkMsg("p1", sn, i, "01"))
+		}
+		iv, ih, ihash := v, int64(h), ah
+		kind := []string{"exact", "version", "hash", "height"}[r.Intn(4)]
+		switch kind {
+		case "version":
+			for iv == v {
+				iv = []uint64{0, 1, 2, 7, 1<<64 - 1, v + 1, v - 1}[r.Intn(7)]
+			}
+		case "hash":
+			for ihash == ah {
+				ihash = hashes[r.Intn(len(hashes))]
+			}
+		case "height":
+			for uint64(ih) == h {
+				ih = []int64{int64(h) + 1, int64(h) - 1, -int64(h), 0, 1, -1 << 63, 1<<63 - 1}[r.Intn(7)]
+			}
+		}
+		scenHist["verify-"+kind]++
+		ops := []string{"s.new", "s.snap peer=p1 " + snapArgs(sn),
+			fmt.Sprintf("s.env h=%d apphash=%s state=3/%d commit=4", h, ah, v),
+			"s.offers accept/" + strings.Join(ms, ","), "s.applies -",
+			fmt.Sprintf("s.infos %d:%s:%d", iv, ihash, ih), "s.late -", "s.run", "s.pool"}
+		emit(core.Case{Kind: "verify", Ops: ops})
+	}
+}
+
 func main() {
 	core.Main(core.Prop{
 		ID:     "C14",
@@ -366,6 +409,7 @@ func main() {
 			genQueue(r, emit, n)
 			genPool(r, emit, n)
 			genSync(r, emit, 2*n, tier)
+			genVerify(r, emit, n/2)
 		},
 		Exec:   execCase,
 		Oracle: oracle,
